@@ -24,6 +24,8 @@ def _body(tag, ctl: Path, maxwait: float):
     pid = os.getpid()
     _append(log, f"begin {pid}")
     _append(ctl / "events.log", f"begin {tag} {pid}")
+    # what the body prints is part of the results of the job (<name>.out)
+    print(f"output of {tag} {pid}", flush=True)  # noqa: T201
     t0 = time.time()
     while not ((ctl / f"latch.{tag}").exists() or (ctl / "latch.all").exists()):
         if time.time() - t0 > maxwait:
@@ -64,7 +66,10 @@ def _body(tag, ctl: Path, maxwait: float):
         secs = float(linger.read_text() or "0")
 
         def late():
-            time.sleep(secs)
+            # until the harness says so (ctl/unlinger.<tag>), at most `secs` seconds
+            t1 = time.time()
+            while not (ctl / f"unlinger.{tag}").exists() and time.time() - t1 < secs:
+                time.sleep(0.01)
             _append(ctl / "events.log", f"late {tag} {pid}")
         threading.Thread(target=late, daemon=False).start()
     _append(log, f"end {pid} ok")
